@@ -1,6 +1,56 @@
-//! hnf operations (stub; filled in by the area owner).
+//! C02 / C03: Hermite normal form (number-theory-linear/src/hnf.rs).
 use crate::term::*;
+use number_theory_linear::hnf::{self, HNF};
 
-pub fn dispatch(_op: &str, _a: &[Term]) -> Option<Term> {
-    None
+fn enc_hu(a: &[Vec<num::BigInt>]) -> Term {
+    let (h, u, k) = hnf::hnf_with_u(a);
+    tl(vec![timat(&h.as_vecs()), timat(&u), ti(k as u64)])
+}
+
+fn u_ker(a: &[Vec<num::BigInt>]) -> Term {
+    let x = enc_hu(a);
+    let (h2, ker) = hnf::hnf_with_ker(a);
+    let ker2 = HNF::kernel(a);
+    tl(vec![x, tl(vec![timat(&h2.as_vecs()), timat(&ker)]), timat(&ker2)])
+}
+
+pub fn dispatch(op: &str, a: &[Term]) -> Option<Term> {
+    Some(match op {
+        // hnf_with_u A -> [H U k]
+        "hnf_with_u" => {
+            let (h, u, k) = hnf::hnf_with_u(&a[0].imat());
+            tl(vec![timat(&h.as_vecs()), timat(&u), ti(k as u64)])
+        }
+        // hnf_with_ker A -> [H K]
+        "hnf_with_ker" => {
+            let (h, ker) = hnf::hnf_with_ker(&a[0].imat());
+            tl(vec![timat(&h.as_vecs()), timat(&ker)])
+        }
+        "hnf_new" => timat(&HNF::new(&a[0].imat()).as_vecs()),
+        "hnf_kernel" => timat(&HNF::kernel(&a[0].imat())),
+        // hnf_new_pair A B -> [HNF::new(A) HNF::new(B) (HNF::new(A) == HNF::new(B))]
+        "hnf_new_pair" => {
+            let x = HNF::new(&a[0].imat());
+            let y = HNF::new(&a[1].imat());
+            let e = x == y;
+            tl(vec![timat(&x.as_vecs()), timat(&y.into_vecs()), tbool(e)])
+        }
+        // hnf_union A B -> HNF::union(HNF::new(A), HNF::new(B))
+        "hnf_union" => {
+            let x = HNF::new(&a[0].imat());
+            let y = HNF::new(&a[1].imat());
+            timat(&HNF::union(&x, &y).as_vecs())
+        }
+        "hnf_determinant" => tb(&HNF::new(&a[0].imat()).determinant()),
+        // hnf_dim_deg A -> [dim deg] of HNF::new(A)
+        "hnf_dim_deg" => {
+            let x = HNF::new(&a[0].imat());
+            tl(vec![ti(x.dim() as u64), ti(x.deg() as u64)])
+        }
+        // hnf_u_ker A -> [[H U k] [H' K] K'] from hnf_with_u, hnf_with_ker, HNF::kernel
+        "hnf_u_ker" => u_ker(&a[0].imat()),
+        "hnf_with_u_batch" => tl(a[0].list().iter().map(|m| enc_hu(&m.imat())).collect()),
+        "hnf_u_ker_batch" => tl(a[0].list().iter().map(|m| u_ker(&m.imat())).collect()),
+        _ => return None,
+    })
 }
